@@ -33,6 +33,7 @@ def c02_jobs(tier):
                  J("hsms", "ZZ_C02_tree", depth=3, width=2, menu=2, maxn=1, timeout_s=1500),
                  J("hsms", "ZZ_C02_tree", depth=1, width=3, menu=13, maxn=2, timeout_s=1500)]
     jobs += [J("hsms", "ZZ_C02_incomplete", which=w) for w in range(4)]
+    jobs += [J("ast", "ZZ_C13_header", typ=t) for t in range(14)]  # format byte + shortest length for every size
     W = [1, 1, 1, 1, 8, 1, 2, 4, 8, 4, 8, 1, 2, 4]
     for k in LEAF_KINDS:
         sizes = [255, 256] if W[k] == 1 else [256]
@@ -48,6 +49,8 @@ def c02_jobs(tier):
 def c01_jobs(tier):
     ns = [0, 1, 2] if tier == "quick" else [0, 1, 2, 3, 6]
     jobs = [J("hsms", "ZZ_C01_leaf", kind=k, n=n) for k in LEAF_KINDS for n in ns]
+    # the item header for EVERY size (harness shared with C13): items of exactly 16,777,215 bytes included
+    jobs += [J("ast", "ZZ_C13_header", typ=t) for t in range(14)]
     if tier == "quick":
         jobs += [J("hsms", "ZZ_C01_tree", depth=2, width=2, menu=2, maxn=1)]
         bsizes = [255, 256, 257]
@@ -85,6 +88,11 @@ def c03_jobs(tier):
             jobs.append(J("hsms", "ZZ_C03_lenbytes", kind=kind, nlb=nlb, present=present, fuel=2_000_000_000, timeout_s=(250 if tier == "quick" else 3300)))
     for order in range(4):
         jobs.append(J("hsms", "ZZ_C03_mixed", order=order, fuel=400_000_000))
+    # decode -> re-encode of whole trees (harness shared with C01): nested lists of equal size, empty items first, ...
+    if tier == "quick":
+        jobs.append(J("hsms", "ZZ_C01_tree", depth=2, width=2, menu=2, maxn=1))
+    else:
+        jobs.append(J("hsms", "ZZ_C01_tree", depth=2, width=2, menu=4, maxn=1, timeout_s=3300))
     return jobs
 
 
@@ -99,9 +107,9 @@ def c07_jobs(tier):
                 for kind in ((0, 1, 3, 6, 9) if tier == "quick" else range(14)):
                     jobs.append(J("hsms", "ZZ_C07_declared", depth=d, nlb=nlb, present=present, kind=kind))
     for nlb, kind in ((2, 1), (3, 1), (3, 0), (3, 3), (2, 6)):
-        jobs.append(J("hsms", "ZZ_C07_sparecap", nlb=nlb, kind=kind, extra=(2 << 20), fuel=400_000_000, timeout_s=(250 if tier == "quick" else 3300)))
-    for fam in range(7):
-        scale = {3: 30000, 6: 6000}.get(fam, 20000)
+        jobs.append(J("hsms", "ZZ_C07_sparecap", nlb=nlb, kind=kind, extra=200000, fuel=400_000_000, timeout_s=(250 if tier == "quick" else 3300)))
+    for fam in range(8):
+        scale = {3: 30000, 6: 6000, 7: 16000}.get(fam, 20000)
         jobs.append(J("hsms", "ZZ_C07_growth", fam=fam, j=(32 if tier == "quick" or fam == 6 else 128), scale=scale, fuel=400_000_000))
     return jobs
 
